@@ -557,3 +557,7 @@ def run(ctx):
     # the record the step filled is the one written (same rule instance as C11/partial-results-kept)
     from rules import c11
     c11.rule_partial_results_kept(ctx, R="C18/arch-always-named")
+    # caller-supplied auxv values stay in force for every dump (same rule instance as C19/config-preserved)
+    from rules import c19 as _c19
+    _c19.rule_config_preserved(ctx, R="C18/options-kept", only=("direct_auxv_dump_info",))
+
